@@ -17,16 +17,18 @@ VARIABLES l,          \* next line
           returned,   \* requests that returned
           rel,        \* request -> number of releases of its stream
           obsEnd,     \* requests whose stream observer saw finished/abandoned
+          obsStart,   \* requests whose stream observer saw "started"
+          errClosed,  \* the connection was closed with an error (closeWithError(err), err # nil)
           ansFly,     \* stream ids on which the node has sent an answer the receiver has not yet matched to a call
           mustResp,   \* requests whose response the receiver had in hand before their caller began to wait
                       \* (and nothing else ended them): they must get it
           bad
-vars == <<l, outst, called, returned, rel, obsEnd, ansFly, mustResp, bad>>
+vars == <<l, outst, called, returned, rel, obsEnd, obsStart, errClosed, ansFly, mustResp, bad>>
 
 Allowed == {"resp", "frameerr", "timeout", "ctx", "closed", "nostreams", "builderr", "writeerr"}
 OK == "none"
 
-Init == /\ l = 1 /\ outst = {} /\ called = {} /\ returned = {} /\ rel = <<>> /\ obsEnd = {} /\ mustResp = {} /\ ansFly = {} /\ bad = OK
+Init == /\ l = 1 /\ outst = {} /\ called = {} /\ returned = {} /\ rel = <<>> /\ obsEnd = {} /\ mustResp = {} /\ ansFly = {} /\ obsStart = {} /\ errClosed = FALSE /\ bad = OK
 
 Cur == Log[l]
 RelOf(r) == IF r \in DOMAIN rel THEN rel[r] ELSE 0
@@ -36,7 +38,7 @@ Step ==
   CASE e.ev = "call" ->
          /\ called' = called \cup {e.req}
          /\ bad' = IF e.req \in called \cup returned THEN "HarnessDuplicateCall" ELSE OK
-         /\ UNCHANGED <<outst, returned, rel, obsEnd, mustResp, ansFly>>
+         /\ UNCHANGED <<outst, returned, rel, obsEnd, mustResp, ansFly, obsStart, errClosed>>
     [] e.ev = "ret" ->
          /\ called' = called \ {e.req}
          /\ returned' = returned \cup {e.req}
@@ -46,59 +48,70 @@ Step ==
                    ELSE IF e.outcome = "resp" /\ e.echo # e.tok THEN "NoMisroute"
                    ELSE IF e.req \in mustResp /\ e.outcome # "resp" THEN "ResponseReaches"
                    ELSE OK
-         /\ UNCHANGED <<outst, rel, obsEnd, mustResp, ansFly>>
+         /\ UNCHANGED <<outst, rel, obsEnd, mustResp, ansFly, obsStart, errClosed>>
     [] e.ev = "n_recv" ->
          \* the node sees a stream id again although an earlier request on it is unanswered
          /\ bad' = IF \E o \in outst : o[1] = e.stream THEN "NoReuseWhileOutstanding" ELSE OK
          /\ outst' = outst \cup {<<e.stream, e.tok>>}
-         /\ UNCHANGED <<called, returned, rel, obsEnd, mustResp, ansFly>>
+         /\ UNCHANGED <<called, returned, rel, obsEnd, mustResp, ansFly, obsStart, errClosed>>
     [] e.ev = "n_send" ->
          /\ outst' = outst \ {<<e.stream, e.tok>>}
          /\ ansFly' = ansFly \cup {e.stream}
          /\ bad' = OK
-         /\ UNCHANGED <<called, returned, rel, obsEnd, mustResp>>
+         /\ UNCHANGED <<called, returned, rel, obsEnd, mustResp, obsStart, errClosed>>
     [] e.ev = "r_lookup" ->
          \* the receiver matched a frame on this stream to a registered call
          /\ ansFly' = IF e.req # 0 THEN ansFly \ {e.stream} ELSE ansFly
          /\ bad' = OK
-         /\ UNCHANGED <<outst, called, returned, rel, obsEnd, mustResp>>
+         /\ UNCHANGED <<outst, called, returned, rel, obsEnd, mustResp, obsStart, errClosed>>
     [] e.ev = "r_discard" ->
          \* "received response for stream which has no handler": fine for a frame nobody asked for, but the
          \* answer to a request that was written (the node only answers what it received) belongs to a call
          \* that is registered until the answer or the connection's end
          /\ bad' = IF e.stream \in ansFly THEN "ResponseReaches" ELSE OK
          /\ ansFly' = ansFly \ {e.stream}
-         /\ UNCHANGED <<outst, called, returned, rel, obsEnd, mustResp>>
+         /\ UNCHANGED <<outst, called, returned, rel, obsEnd, mustResp, obsStart, errClosed>>
     [] e.ev = "x_release" ->
          /\ rel' = [r \in DOMAIN rel \cup {e.req} |-> IF r = e.req THEN RelOf(r) + 1 ELSE rel[r]]
          /\ bad' = IF RelOf(e.req) >= 1 THEN "ReleaseOnce" ELSE OK
-         /\ UNCHANGED <<outst, called, returned, obsEnd, mustResp, ansFly>>
+         /\ UNCHANGED <<outst, called, returned, obsEnd, mustResp, ansFly, obsStart, errClosed>>
     [] e.ev \in {"obs_finished", "obs_abandoned"} ->
          /\ obsEnd' = obsEnd \cup {e.req}
          /\ bad' = IF e.req # 0 /\ e.req \in obsEnd THEN "ObserverOnce" ELSE OK
-         /\ UNCHANGED <<outst, called, returned, rel, mustResp, ansFly>>
+         /\ UNCHANGED <<outst, called, returned, rel, mustResp, ansFly, obsStart, errClosed>>
     [] e.ev = "avail" ->
          \* connection open and quiet: every id is available except those of requests whose
          \* answer never came
          /\ bad' = IF e.closed = 0 /\ e.avail # e.cap - Cardinality({o[1] : o \in outst})
                    THEN (IF e.avail < e.cap - Cardinality({o[1] : o \in outst}) THEN "NoLeak" ELSE "Conservation")
                    ELSE OK
-         /\ UNCHANGED <<outst, called, returned, rel, obsEnd, mustResp, ansFly>>
+         /\ UNCHANGED <<outst, called, returned, rel, obsEnd, mustResp, ansFly, obsStart, errClosed>>
     [] e.ev = "env_expect_resp" ->
          /\ mustResp' = mustResp \cup {e.req}
          /\ bad' = OK
-         /\ UNCHANGED <<outst, called, returned, rel, obsEnd, ansFly>>
+         /\ UNCHANGED <<outst, called, returned, rel, obsEnd, ansFly, obsStart, errClosed>>
+    [] e.ev = "obs_started" ->
+         /\ obsStart' = IF e.req > 0 THEN obsStart \cup {e.req} ELSE obsStart
+         /\ bad' = OK
+         /\ UNCHANGED <<outst, called, returned, rel, obsEnd, mustResp, ansFly, errClosed>>
+    [] e.ev = "c_begin" ->
+         /\ errClosed' = (errClosed \/ e.what # "none")
+         /\ bad' = OK
+         /\ UNCHANGED <<outst, called, returned, rel, obsEnd, mustResp, ansFly, obsStart>>
     [] e.ev = "env_early_timeout" ->
          \* a timeout outcome before the configured Timeout can have elapsed
          /\ bad' = "TimeoutHonoured"
-         /\ UNCHANGED <<outst, called, returned, rel, obsEnd, mustResp, ansFly>>
+         /\ UNCHANGED <<outst, called, returned, rel, obsEnd, mustResp, ansFly, obsStart, errClosed>>
     [] e.ev = "env_stuck" ->
          /\ bad' = IF e.what = "close" THEN "CloseReturns" ELSE "RequestEnds"
-         /\ UNCHANGED <<outst, called, returned, rel, obsEnd, mustResp, ansFly>>
+         /\ UNCHANGED <<outst, called, returned, rel, obsEnd, mustResp, ansFly, obsStart, errClosed>>
     [] e.ev = "end" ->
-         /\ bad' = IF called # {} THEN "RequestEnds" ELSE OK
-         /\ UNCHANGED <<outst, called, returned, rel, obsEnd, mustResp, ansFly>>
-    [] OTHER -> /\ bad' = OK /\ UNCHANGED <<outst, called, returned, rel, obsEnd, mustResp, ansFly>>
+         \* StreamObserver: "exactly one of Finished / Abandoned per Started": once the connection was closed
+         \* with an error every started stream has been finished or abandoned
+         /\ bad' = IF called # {} THEN "RequestEnds"
+                   ELSE IF errClosed /\ (obsStart \ obsEnd) # {} THEN "ObserverEnds" ELSE OK
+         /\ UNCHANGED <<outst, called, returned, rel, obsEnd, mustResp, ansFly, obsStart, errClosed>>
+    [] OTHER -> /\ bad' = OK /\ UNCHANGED <<outst, called, returned, rel, obsEnd, mustResp, ansFly, obsStart, errClosed>>
 
 Next == l <= Len(Log) /\ Step /\ l' = l + 1
 Spec == Init /\ [][Next]_vars
